@@ -419,8 +419,10 @@ Definition check_root (v : yv) : bool :=
 
 Inductive lresult := LoadOk | LoadErr | LoadPanic.
 
-(* A null entry in a `configs` list passes the decoder (nil *Config) and is then dereferenced by
-   InterfaceConfig.Initialize -> mergeConfigs: run-time panic.  (migrate never writes one.) *)
+(* A null entry in a `configs` list passes the decoder (nil *Config).  On the pinned tree it was
+   then dereferenced by InterfaceConfig.Initialize -> mergeConfigs (run-time panic); since the
+   repair "a null entry in an interface's configs list is an empty config" it loads like `{}`.
+   (migrate never writes one: [root_null_sub_mig].) *)
 Definition iface_null_sub (v : yv) : bool :=
   match v with
   | YMap m => existsb (fun e => keq (fst e) kconfigs &&
@@ -447,7 +449,6 @@ Definition load_with (nil_default : bool) (v : yv) : lresult :=
     if nil_default && match assoc (B "_anchors") m with Some (YMap (_ :: _)) => true | _ => false end
     then LoadPanic
     else if negb (check_root v) then LoadErr
-    else if root_null_sub v then LoadPanic
     else LoadOk
   | _ => LoadErr
   end.
